@@ -4,6 +4,8 @@ package main
 // concretisation of abstract messages into real sdk.Msg values (real signatures for DID proofs).
 
 import (
+	"strconv"
+	"regexp"
 	"fmt"
 	"sort"
 	"strings"
@@ -119,6 +121,17 @@ func conc(d map[string]string, a string) string {
 	return a // verbatim (descriptions, monikers, names, record keys/values)
 }
 
+var longRe = regexp.MustCompile(`^L(\d+)$`)
+
+// longv: free-text values named "L<n>" stand for n bytes of text (a long description or record value); everything else is verbatim
+func longv(s string) string {
+	if m := longRe.FindStringSubmatch(s); m != nil {
+		n, _ := strconv.Atoi(m[1])
+		return strings.Repeat("d", n)
+	}
+	return s
+}
+
 func abs(d map[string]string, c string) string {
 	if v, ok := d[c]; ok {
 		return v
@@ -158,6 +171,12 @@ func init() {
 		d2 := old[:len("did:panacea:")] + "cedipan" + old[len("did:panacea:")+7:]
 		didDict["d2"] = d2
 		didRev[d2] = "d2"
+	}
+	// "dp": d1 without its last character - a valid identifier (32-44 characters) that is a proper PREFIX of a registered one
+	{
+		dp := didDict["d1"][:len(didDict["d1"])-1]
+		didDict["dp"] = dp
+		didRev[dp] = "dp"
 	}
 	// "dc": a hostile twin of d1 — the same identifier with the case of one letter flipped (still valid base58)
 	d1 := []byte(didDict["d1"])
@@ -263,6 +282,10 @@ func concDoc(a M) *didtypes.DIDDocument {
 	}
 	did := conc(didDict, id)
 	if len(list(a, "vms")) == 0 && len(list(a, "auth")) == 0 && len(list(a, "asrt")) == 0 {
+		if str(a, "ex") == "ctx" {
+			d := didtypes.NewDIDDocument(did) // the stub WITH the default context: not what a deactivation proof is made over
+			return &d
+		}
 		return &didtypes.DIDDocument{Id: did} // the bare document a deactivation proof is made over
 	}
 	doc := &didtypes.DIDDocument{Contexts: &didtypes.JSONStringOrStrings{didtypes.ContextDIDV1}, Id: did}
@@ -482,10 +505,15 @@ func concProof(p M) []byte {
 	if key == "" || key == "none" {
 		return nil
 	}
+	pad := strings.HasSuffix(key, "+") // "k1+": the signature of k1 followed by one more byte (65 bytes: not a signature of the payload)
+	key = strings.TrimSuffix(key, "+")
 	data := concDoc(p["data"].(M))
 	sig, err := didtypes.Sign(data, uint64(num(p, "seq")), didKeys[key].Priv)
 	if err != nil {
 		panic(err)
+	}
+	if pad {
+		sig = append(sig, 0x01)
 	}
 	return sig
 }
@@ -498,7 +526,7 @@ func concProof(p M) []byte {
 func (c *Chain) concMsg(m M) (sdk.Msg, error) {
 	switch str(m, "type") {
 	case "aol.CreateTopic":
-		return &aoltypes.MsgCreateTopicRequest{TopicName: conc(topicDict, str(m, "topic")), Description: str(m, "desc"), OwnerAddress: c.mbech(str(m, "owner"))}, nil
+		return &aoltypes.MsgCreateTopicRequest{TopicName: conc(topicDict, str(m, "topic")), Description: longv(str(m, "desc")), OwnerAddress: c.mbech(str(m, "owner"))}, nil
 	case "aol.AddWriter":
 		return &aoltypes.MsgAddWriterRequest{TopicName: conc(topicDict, str(m, "topic")), Moniker: str(m, "mon"), Description: str(m, "desc"),
 			WriterAddress: c.mbech(str(m, "writer")), OwnerAddress: c.mbech(str(m, "owner"))}, nil
@@ -512,7 +540,7 @@ func (c *Chain) concMsg(m M) (sdk.Msg, error) {
 		if fp != "" {
 			fp = c.mbech(fp)
 		}
-		return &aoltypes.MsgAddRecordRequest{TopicName: conc(topicDict, str(m, "topic")), Key: []byte(str(m, "key")), Value: []byte(str(m, "val")),
+		return &aoltypes.MsgAddRecordRequest{TopicName: conc(topicDict, str(m, "topic")), Key: []byte(str(m, "key")), Value: []byte(longv(str(m, "val"))),
 			WriterAddress: c.mbech(str(m, "writer")), OwnerAddress: c.mbech(str(m, "owner")), FeePayerAddress: fp}, nil
 	case "did.Create":
 		return &didtypes.MsgCreateDIDRequest{Did: conc(didDict, str(m, "did")), Document: concDoc(m["doc"].(M)),
